@@ -248,6 +248,13 @@ def build_chan(flavour):
                  wrap("condition_variable_wait", "lock_acquire", "condition_variable_notify_all"))
 
 
+def build_hal(flavour):
+    b = Builder(flavour)
+    props = ["acquire-core-libs/src/acquire-device-properties/device/props/device.c"]
+    objs = b.objs(HAL_DEVICES + CORE_LOGGER + props) + b.objs([harness("hal_harness.c")])
+    return b.exe("hal_harness", objs, wrap("device_manager_get_driver"))
+
+
 TARGETS = {
     "chan": build_chan,
 }
